@@ -63,6 +63,7 @@ var runners = map[string]runner{
 	"C06": {"model_checking", func(rep *report.Report, tier string) {
 		sesshist.RunC06(rep, tier)
 		streams.RunC06B(rep, tier, ribhist.Budget(tier, 100*time.Second, 20*time.Minute))
+		conc.RunC06Concurrent(rep, tier)
 	}},
 }
 
@@ -72,7 +73,13 @@ var children = map[string]func(rep *report.Report, tier, part string){
 	"C19": compl.Child,
 	"C13": clienth.ChildC13,
 	"C14": clienth.ChildC14,
-	"C06": streams.Child("C06"),
+	"C06": func(rep *report.Report, tier, part string) {
+		if strings.HasPrefix(part, "lin/") {
+			conc.ChildC06Concurrent(rep, tier, part)
+			return
+		}
+		streams.Child("C06")(rep, tier, part)
+	},
 	"C09": streams.Child("C09"),
 	"C10": streams.Child("C10"),
 }
